@@ -435,15 +435,19 @@ Fixpoint remn (x : nat) (l : list nat) : list nat :=
    opause  : (r, l): r paused when the queue held l; everybody in l must run before r does
    odeq    : the previous event was EDeq c (then this one must be ERun c) *)
 Record ost := mkO { oq : list nat; orun : list nat; ofin : list nat; oblig : list (nat * nat);
-                    opause : list (nat * list nat); odeq : option nat;
+                    opause : list (nat * list nat);
+                    odeq : option (nat * bool);   (* previous event was EDeq c; the flag: that dequeue was done by a pause *)
                     onest : list nat;              (* coroutines inside async::start() (ENest without EBack) *)
                     ostamp : list (nat * nat);     (* coroutine -> time of its last ESusp (subscription order) *)
                     otime : nat;
-                    ogrp : list nat }.             (* handles of ONE suspend point queued by the immediately preceding events *)
-Definition ost0 : ost := mkO [] [] [] [] [] None [] [] 0 [].
+                    ogrp : list nat;               (* handles of ONE suspend point queued by the immediately preceding events *)
+                    opz : bool }.                  (* previous event was the self-enqueue of a pause *)
+Definition ost0 : ost := mkO [] [] [] [] [] None [] [] 0 [] false.
 
 Definition drop_waker (r : nat) (l : list (nat * nat)) : list (nat * nat) :=
   filter (fun p => negb (Nat.eqb (snd p) r)) l.
+Definition drop_target (c : nat) (l : list (nat * nat)) : list (nat * nat) :=
+  filter (fun p => negb (Nat.eqb (fst p) c)) l.
 Definition has_target (c : nat) (l : list (nat * nat)) : bool := existsb (fun p => Nat.eqb (fst p) c) l.
 
 Fixpoint assoc {A} (k : nat) (l : list (nat * A)) : option A :=
@@ -466,34 +470,41 @@ Fixpoint pause_run (c : nat) (l : list (nat * list nat)) : option (list (nat * l
 Definition older_than_group (o : ost) (c : nat) : bool :=
   match rev (ogrp o) with [] => true | l :: _ => Nat.ltb (stamp_of o c) (stamp_of o l) end.
 
-(* lenient = true: a nested start() by r counts like a suspension of r (used only to CLASSIFY a failure) *)
+(* lenient = true (used only to CLASSIFY a failure as the known finding): a coroutine c queued by r through a discarded
+   suspend point may run before r suspended ONLY IF r is at that moment blocked inside async::start() AND c was taken from the
+   queue by a `pause` executed inside that nested activation — the only way the real library can get there.  Any other early
+   run (e.g. a finishing nested child jumping into the queue) is a violation in both modes. *)
 Definition ostep (lenient : bool) (o0 : ost) (e : event) : option ost :=
   let follows := match odeq o0 with
-                 | Some c => match e with ERun c' => Nat.eqb c c' | _ => false end
+                 | Some (c, _) => match e with ERun c' => Nat.eqb c c' | _ => false end
                  | None => true end in
   if negb follows then None else
-  let o := mkO (oq o0) (orun o0) (ofin o0) (oblig o0) (opause o0) None (onest o0) (ostamp o0) (otime o0) [] in
+  let bypause := match odeq o0 with Some (_, b) => b | None => false end in
+  let o := mkO (oq o0) (orun o0) (ofin o0) (oblig o0) (opause o0) None (onest o0) (ostamp o0) (otime o0) [] false in
   match e with
   | ERun c =>
-      if memn c (orun o) || memn c (ofin o) || has_target c (oblig o) || memn c (oq o) then None else
+      if memn c (orun o) || memn c (ofin o) || memn c (oq o) then None else
+      let early_ok := lenient && bypause &&
+                      forallb (fun p => negb (Nat.eqb (fst p) c) || memn (snd p) (onest o)) (oblig o) in
+      if has_target c (oblig o) && negb early_ok then None else
       (* nobody else may be running, except callers blocked inside async::start() *)
       if negb (forallb (fun r => memn r (onest o)) (orun o)) then None else
       if negb (older_than_group o0 c) then None else
       match pause_run c (opause o) with
       | None => None
-      | Some p => Some (mkO (oq o) (c :: orun o) (ofin o) (oblig o) p None (onest o) (ostamp o) (otime o) [])
+      | Some p => Some (mkO (oq o) (c :: orun o) (ofin o) (drop_target c (oblig o)) p None (onest o) (ostamp o) (otime o) [] false)
       end
   | ESusp c =>
       if memn c (orun o)
       then Some (mkO (oq o) (remn c (orun o)) (ofin o) (drop_waker c (oblig o)) (opause o) None (onest o)
-                     ((c, otime o) :: ostamp o) (S (otime o)) [])
+                     ((c, otime o) :: ostamp o) (S (otime o)) [] false)
       else None
   | EFin c _ =>
       if memn c (orun o)
       then Some (mkO (oq o) (remn c (orun o)) (c :: ofin o) (drop_waker c (oblig o)) (opause o) None (onest o)
-                     (ostamp o) (otime o) [])
+                     (ostamp o) (otime o) [] false)
       else None
-  | EFree _ => Some (mkO (oq o) (orun o) (ofin o) (oblig o) (opause o) None (onest o) (ostamp o) (otime o) (ogrp o0))
+  | EFree _ => Some (mkO (oq o) (orun o) (ofin o) (oblig o) (opause o) None (onest o) (ostamp o) (otime o) (ogrp o0) false)
   | EEnq c r why =>
       if memn c (oq o) || memn c (orun o) || memn c (ofin o) then None else
       let ob := if Z.eqb why why_discard && negb (Nat.eqb r 0) then (c, r) :: oblig o else oblig o in
@@ -501,10 +512,11 @@ Definition ostep (lenient : bool) (o0 : ost) (e : event) : option ost :=
       let grouped := Z.eqb why why_discard || Z.eqb why why_spawait || Z.eqb why why_final in
       if grouped && negb (older_than_group o0 c) then None else
       Some (mkO (oq o ++ [c]) (orun o) (ofin o) ob pa None (onest o) (ostamp o) (otime o)
-                (if grouped then ogrp o0 ++ [c] else ogrp o0))
+                (if grouped then ogrp o0 ++ [c] else ogrp o0) (Z.eqb why why_pause))
   | EDeq c =>
       match oq o with
-      | x :: q => if Nat.eqb x c then Some (mkO q (orun o) (ofin o) (oblig o) (opause o) (Some c) (onest o) (ostamp o) (otime o) [])
+      | x :: q => if Nat.eqb x c
+                  then Some (mkO q (orun o) (ofin o) (oblig o) (opause o) (Some (c, opz o0)) (onest o) (ostamp o) (otime o) [] false)
                   else None
       | [] => None
       end
@@ -513,9 +525,8 @@ Definition ostep (lenient : bool) (o0 : ost) (e : event) : option ost :=
       match oq o, orun o with [], [] => Some o | _, _ => None end
   | EEnd _ _ => match oq o with [] => Some o | _ => None end
   | ENest r _ =>
-      Some (mkO (oq o) (orun o) (ofin o) (if lenient then drop_waker r (oblig o) else oblig o) (opause o) None
-                (r :: onest o) (ostamp o) (otime o) [])
-  | EBack r => Some (mkO (oq o) (orun o) (ofin o) (oblig o) (opause o) None (remn r (onest o)) (ostamp o) (otime o) [])
+      Some (mkO (oq o) (orun o) (ofin o) (oblig o) (opause o) None (r :: onest o) (ostamp o) (otime o) [] false)
+  | EBack r => Some (mkO (oq o) (orun o) (ofin o) (oblig o) (opause o) None (remn r (onest o)) (ostamp o) (otime o) [] false)
   | _ => Some o
   end.
 
